@@ -30,6 +30,7 @@ type cacheAction struct {
 	K        int64         `json:"k,omitempty"`
 	Eligible []uint64      `json:"eligible,omitempty"`
 	Plain    bool          `json:"plain,omitempty"` // search: run a plain Search even through a filtering-capable handle
+	Defer    bool          `json:"defer,omitempty"` // search: the result list is read only after the next search on that handle (or when it is closed)
 }
 
 type cacheCase struct {
@@ -80,6 +81,7 @@ func genCacheCase(t *rapid.T) cacheCase {
 			a.Q[axis] = float32(rapid.SampledFrom([]int{1, -1}).Draw(t, al+"sign"))
 			a.Eligible = rapid.SliceOfNDistinct(rapid.Uint64Range(0, uint64(min(nd, 10)-1)), 0, 6, rapid.ID[uint64]).Draw(t, al+"elig")
 			a.Plain = rapid.Bool().Draw(t, al+"plain")
+			a.Defer = gen.Chance(t, al+"defer", 40)
 		case "close":
 			a.Handle = rapid.IntRange(0, 30).Draw(t, al+"h")
 		}
@@ -110,6 +112,10 @@ type openHandle struct {
 	filter bool
 	except spec.DropSpec
 	closed bool
+	// a result list not read yet, with the answer it must hold
+	pending     segment.VecPostingsList
+	pendingExp  []vecPair
+	pendingDesc string
 }
 
 // queryFor shapes the generic query for a field: right dimension; for
@@ -185,6 +191,21 @@ func runCacheCase(c cacheCase) *Violation {
 
 	var handles []*openHandle
 	var v *Violation
+	// settle reads a deferred result list: it must still hold the answer of ITS search
+	settle := func(h *openHandle) error {
+		if h.pending == nil {
+			return nil
+		}
+		got, err := readVecList(h.pending)
+		h.pending = nil
+		if err != nil {
+			return fmt.Errorf("%s: reading the deferred result: %w", h.pendingDesc, err)
+		}
+		if fmt.Sprint(got) != fmt.Sprint(h.pendingExp) {
+			v = violation(prop, "cache/history-dependent-answer", "%s: the result list, read after a later search on the same handle, holds %v; a freshly opened copy of the same file answers %v", h.pendingDesc, got, h.pendingExp)
+		}
+		return nil
+	}
 	err := drive.Safe(func() error {
 		for i, a := range c.Actions {
 			where := fmt.Sprintf("action %d (%s)", i, a.Op)
@@ -214,6 +235,9 @@ func runCacheCase(c cacheCase) *Violation {
 				}
 				h := handles[a.Handle%len(handles)]
 				if !h.closed {
+					if err := settle(h); err != nil || v != nil {
+						return err
+					}
 					h.vi.Close()
 					h.closed = true
 				}
@@ -245,7 +269,7 @@ func runCacheCase(c cacheCase) *Violation {
 						}
 					}
 				}
-				got, err := searchHandle(h.vi, q, a.K, useFilter, eligible)
+				pl, err := startSearch(h.vi, q, a.K, useFilter, eligible)
 				if err != nil {
 					return fmt.Errorf("%s: %w", where, err)
 				}
@@ -253,7 +277,19 @@ func runCacheCase(c cacheCase) *Violation {
 				if err != nil {
 					return fmt.Errorf("%s: fresh copy: %w", where, err)
 				}
+				// an earlier result that was not read yet is read now, after this search was issued
+				if err := settle(h); err != nil || v != nil {
+					return err
+				}
 				desc := fmt.Sprintf("%s: field %q q=%v k=%d except=%v handle-filtering=%v filtered-search=%v eligible=%v", where, h.field, q, a.K, h.except.Docs, h.filter, useFilter, eligible)
+				if a.Defer {
+					h.pending, h.pendingExp, h.pendingDesc = pl, exp, desc
+					continue
+				}
+				got, err := readVecList(pl)
+				if err != nil {
+					return fmt.Errorf("%s: %w", where, err)
+				}
 				if fmt.Sprint(got) != fmt.Sprint(exp) {
 					v = violation(prop, "cache/history-dependent-answer", "%s: the handle answered %v, a freshly opened copy of the same file answers %v", desc, got, exp)
 					return nil
@@ -284,6 +320,12 @@ func runCacheCase(c cacheCase) *Violation {
 	}
 	for _, h := range handles {
 		if !h.closed {
+			if err := settle(h); err != nil {
+				return violation(prop, "cache/error", "%v", err)
+			}
+			if v != nil {
+				return v
+			}
 			h.vi.Close()
 		}
 	}
